@@ -240,6 +240,7 @@ func checkC15(c *Ctx, r *Report) {
 	r.rule("C15.R2", "every multi-octet word is written / read big-endian", 2)
 	r.rule("C15.R3", "decoder reads (offset, width, shift, mask) equal the TS 32.297 table", 6)
 	r.rule("C15.R4", "file shape: header, then per record header + exactly the payload", 1)
+	r.rule("C15.R6", "every buffer an encoder assembles its octets in is empty when the first octet is written (fresh, or emptied by a Reset that dominates every write)", 3)
 	r.rule("C15.R5", "the file on disk is replaced by exactly the encoded octets (truncating write)", 1)
 
 	l := loadLayouts(c)
@@ -293,6 +294,7 @@ func checkC15(c *Ctx, r *Report) {
 	// decoder vs table
 	c14Compare(c, r, l, true)
 	fileReplaced(c, r, "C15.R5")
+	buffersStartEmpty(c, r, "C15.R6", l.hdrFn, l.recFn, l.fileFn)
 }
 
 func c15Order(r *Report, key string, segs []seg, c *Ctx, f *ssa.Function) {
@@ -594,5 +596,138 @@ func fileReplaced(c *Ctx, r *Report, rule string) {
 	})
 	if n == 0 {
 		r.viol(rule, fnKey(f)+"|write", c.rel(f.Pos()), "the encoder does not put the buffer on disk with a recognised call (os.WriteFile / os.Create / os.OpenFile)")
+	}
+}
+
+// buffersStartEmpty: the layout rules describe what an encoder appends; they
+// describe the octets of the file only if the buffer appended to holds
+// nothing before the first append.  A buffer made in the function is empty; a
+// buffer obtained elsewhere (a pool, a member, a parameter) must be emptied by
+// a Reset / Truncate(0) that dominates every write - emptying it after use
+// only leaves the octets of a call that returned early in front of the next
+// file.
+func buffersStartEmpty(c *Ctx, r *Report, rule string, fns ...*ssa.Function) {
+	isBuf := func(t types.Type) bool {
+		if p, ok := t.Underlying().(*types.Pointer); ok {
+			t = p.Elem()
+		}
+		return typeIs(t, "bytes", "Buffer")
+	}
+	for _, f := range fns {
+		if f == nil {
+			continue
+		}
+		type use struct {
+			writes []*ssa.Call
+			resets []*ssa.Call
+			root   ssa.Value
+		}
+		uses := map[string]*use{}
+		var order []string
+		keyOf := func(v ssa.Value) (string, ssa.Value) {
+			v = stripConv(v)
+			if p, ok := pathOf(v); ok && len(p.Elems) > 0 {
+				return "path:" + p.String(), v
+			}
+			return fmt.Sprintf("val:%p", v), v
+		}
+		get := func(v ssa.Value) *use {
+			k, root := keyOf(v)
+			u := uses[k]
+			if u == nil {
+				u = &use{root: root}
+				uses[k] = u
+				order = append(order, k)
+			}
+			return u
+		}
+		eachInstr(f, func(_ *ssa.BasicBlock, _ int, ins ssa.Instruction) {
+			call, ok := ins.(*ssa.Call)
+			if !ok {
+				return
+			}
+			obj := calleeObj(&call.Call)
+			if obj == nil || obj.Pkg() == nil || len(call.Call.Args) == 0 {
+				return
+			}
+			switch obj.Pkg().Path() + "." + funcLocalName(obj) {
+			case "encoding/binary.Write":
+				if b := stripConv(call.Call.Args[0]); isBuf(b.Type()) {
+					u := get(b)
+					u.writes = append(u.writes, call)
+				}
+			case "bytes.Buffer.Write", "bytes.Buffer.WriteByte", "bytes.Buffer.WriteString", "bytes.Buffer.WriteRune", "bytes.Buffer.ReadFrom":
+				u := get(call.Call.Args[0])
+				u.writes = append(u.writes, call)
+			case "bytes.Buffer.Reset":
+				u := get(call.Call.Args[0])
+				u.resets = append(u.resets, call)
+			case "bytes.Buffer.Truncate":
+				if k, ok := constInt(call.Call.Args[1]); ok && k == 0 {
+					u := get(call.Call.Args[0])
+					u.resets = append(u.resets, call)
+				}
+			}
+		})
+		n := 0
+		for _, k := range order {
+			u := uses[k]
+			if len(u.writes) == 0 {
+				continue
+			}
+			n++
+			key := fmt.Sprintf("%s|buffer #%d", fnKey(f), n)
+			pos := posOf(c, u.writes[0])
+			fresh, origin := false, describe(u.root)
+			switch x := u.root.(type) {
+			case *ssa.Alloc:
+				fresh = true
+				origin = "a buffer made in the function"
+				for _, ref := range *x.Referrers() {
+					if st, ok := ref.(*ssa.Store); ok && st.Addr == x {
+						fresh = false
+						origin = "a buffer overwritten with " + describe(st.Val)
+					}
+				}
+			case *ssa.Call:
+				if o := calleeObj(&x.Call); o != nil && o.Pkg() != nil && o.Pkg().Path() == "bytes" && (o.Name() == "NewBuffer" || o.Name() == "NewBufferString") && len(x.Call.Args) == 1 {
+					origin = "bytes." + o.Name()
+					switch a := x.Call.Args[0].(type) {
+					case *ssa.Const:
+						fresh = a.Value == nil || a.Value.ExactString() == `""`
+					case *ssa.MakeSlice:
+						if k, ok := constInt(a.Len); ok && k == 0 {
+							fresh = true
+						}
+					}
+				}
+			}
+			if fresh {
+				r.proven(rule, key, pos, origin+": empty at the first write")
+				continue
+			}
+			// a Reset that dominates every write
+			okAll := len(u.resets) > 0
+			bad := ""
+			for _, w := range u.writes {
+				dom := false
+				for _, rs := range u.resets {
+					if instrDominates(rs, w) {
+						dom = true
+					}
+				}
+				if !dom {
+					okAll = false
+					if bad == "" {
+						bad = posOf(c, w)
+					}
+				}
+			}
+			r.check(okAll, rule, key, pos, "obtained from "+origin+" and emptied by a Reset that dominates every write",
+				fmt.Sprintf("%s appends to a buffer obtained from %s that is not known to be empty (no Reset dominates the write at %s): whatever an earlier use left in it - e.g. the octets of a file whose write failed and returned early - precedes the octets of this file, and every offset of the format is shifted", shortFn(f), origin, bad))
+		}
+		if n == 0 {
+			r.info(rule, fnKey(f)+"|no buffer", c.rel(f.Pos()), "the encoder does not assemble its octets in a bytes.Buffer")
+		}
 	}
 }
